@@ -15,37 +15,48 @@ SINK = io.StringIO()
 
 
 class Budget:
-    """once a harness HAS failures and has run longer than `soft_s` seconds it stops exploring: the bounded obligation is
-    refuted either way, and code that blows up (a structure growing from call to call, say) would otherwise keep the
-    check busy until its timeout.  Never stops a run that has no failure, so it cannot turn a violation into a pass."""
+    """progress journal of a harness.  After every recorded failure the partial result is written to $VERIF_JOURNAL, and at
+    every program a heartbeat file is touched.  A product call that never returns (compiled code does not see signals; a
+    structure growing from call to call) cannot be interrupted from inside: the verifier's watchdog (vcore/native.py) kills
+    the helper once the heartbeat has been silent for WATCHDOG_S seconds and, if failures were journalled, takes the journal
+    as the result.  A harness that keeps making progress is never cut short, whatever it has found so far, so every clause
+    keeps its full exploration."""
 
     def __init__(self, req, snapshot=None):
         import time
         self.clock = time.monotonic
-        self.t0 = self.clock()
-        self.soft = req.get("soft_s", 60)
-        self.stopped = False
+        self.last = 0.0
         self.snapshot = snapshot
+        self.path = os.environ.get("VERIF_JOURNAL")
+        self.beat(force=True)
+
+    def beat(self, force=False):
+        if not self.path:
+            return
+        now = self.clock()
+        if force or now - self.last > 1.0:
+            self.last = now
+            try:
+                with open(self.path + ".hb", "w") as f:
+                    f.write(str(now))
+            except Exception:      # noqa
+                pass
+
+    def stop(self, fails):
+        self.beat()
+        return False
 
     def failed(self):
-        """journal the partial result after every recorded failure: a product call that never returns (compiled code does not
-        see signals) is killed by the verifier's watchdog, which then reads the failures found so far from the journal"""
-        path = os.environ.get("VERIF_JOURNAL")
-        if not path or self.snapshot is None:
+        if not self.path or self.snapshot is None:
             return
         try:
             d = self.snapshot()
             d["killed"] = True
-            with open(path + ".tmp", "w") as f:
+            with open(self.path + ".tmp", "w") as f:
                 json.dump(d, f, default=lambda o: len(o) if isinstance(o, (set, frozenset)) else str(o))
-            os.replace(path + ".tmp", path)
+            os.replace(self.path + ".tmp", self.path)
         except Exception:      # noqa - the journal is best effort
             pass
-
-    def stop(self, fails):
-        if fails and self.clock() - self.t0 > self.soft:
-            self.stopped = True
-        return self.stopped
 
 
 def quiet(fn, *a, **k):
@@ -159,6 +170,10 @@ FIXED_PROGRAMS = [
     'def f20 { salt: "$tenant" splitters: uid return "A" weighted 1, "B" weighted 1, "C" weighted 1 }',
     'def f21 { salt: "$str" splitters: uid, tenant return "A" weighted 1, "B" weighted 1, "C" weighted 1 }',
     'def f22 { salt: "${uid}%(uid)s{uid}$uid" splitters: uid return "A" weighted 1, "B" weighted 1, "C" weighted 1 }',
+    # text that Unicode normalisation (NFC / NFKC / case folding) would rewrite is kept exactly: salts, labels and literals are code points
+    'def f27 { salt: "cafe\u0301-2024 \uff5b\ufb01\u212a" splitters: uid if c == "e\u0301" { return "re\u0301gime B" weighted 1, "r\u00e9gime B" weighted 1 } else if c == "\u00e9" { return "composed" weighted 1 } '
+    'else if c == "\u212a" { return "kelvin" weighted 1 } else if c == "K" { return "K" weighted 1 } else if c == "\u0130" { return "dotted-I" weighted 1 } else if c == "i\u0307" { return "i-dot" weighted 1 } '
+    'else { return "\uff21" weighted 1, "A" weighted 1, "\u00c5" weighted 1, "\u212b" weighted 1 } }',
     'def f24 { salt: "a\tb\x0cc\u2028d\x85e\x1cf\rg  h" splitters: uid if x == "p\tq" { return "tab" weighted 1 } else if x == "p    q" { return "spaces" weighted 1 } else if x == "p\x0bq\u2029r" { return "vt" weighted 1 } else { return "A" weighted 1, "B" weighted 1 } }',
     'def f25 { splitters: uid if code in "FR,DE,IT" { return "eu" weighted 1 } else if code not in "xyz" { return "notxyz" weighted 1 } else if "a" in tags { return "tagged" weighted 1 } else { return "rest" weighted 1 } }',
     'def f26 { splitters: type, match, _ if case == 1 and _x == 2 or soft in (type, match) { return "A" weighted 1, "B" weighted 1 } else if print == 3 and len != 4 and id == "x" { return "builtin-names" weighted 1 } else { return "C" weighted 1 } }',
@@ -186,7 +201,10 @@ def big_programs():
     return out
 
 
-SPECIAL_VALUES = [True, False, None, 1, "1", 1.0, "café", "josé", "", "x" * 500, "\x00", "'", "\\", 10 ** 40, -0.0, 1e300]
+SPECIAL_VALUES = [True, False, None, 1, "1", 1.0, "café", "josé", "", "x" * 500, "\x00", "'", "\\", 10 ** 40, -0.0, 1e300,
+                  # text that LOOKS numeric to one str predicate and not to another (isdigit / isdecimal / isnumeric / int() / float()), and
+                  # numerals beyond int()'s text-conversion limit: values are never parsed, only printed
+                  "\u00b2", "12\u00b2", "\u2460", "9" * 5000, "\u0663", "\uff11\uff12", " 7", "+5", "007", "1_000", "1e3", "nan", "inf", "\u0bf0"]
 
 
 @register("pipeline_diff")
@@ -235,9 +253,7 @@ def pipeline_diff(req):
             progs.append((exp, text))
     nfixed = 0 if only else len(FIXED_PROGRAMS) + len(big_programs())
     for pi, (exp, text) in enumerate(progs):
-        if budget.stop(fails):
-            stats["stopped_early"] = "failures found and %d s used: %d of %d programs explored" % (budget.soft, pi, len(progs))
-            break
+        budget.beat()
         st, back = dsl_ref.parse_text(text)
         if st != "ok" or not same_value(back, exp) and not only and pi >= nfixed:
             # the generator/renderer/reference-parser triple must round-trip; otherwise the case is not usable
@@ -287,9 +303,10 @@ def pipeline_diff(req):
         spl, ids = dsl_ref.fields(exp)
         for f in spl:
             if f not in ids:
-                e2 = dict(envs[0])
-                e2[f] = rnd.choice(SPECIAL_VALUES)
-                envs.append(e2)
+                for _ in range(3):
+                    e2 = dict(envs[0])
+                    e2[f] = rnd.choice(SPECIAL_VALUES)
+                    envs.append(e2)
         if spl and not any(f in ids for f in spl):
             # values that are equal but print differently (and the empty key), consecutively on ONE evaluator
             for v in (1, 1.0, True, "1", 0, 0.0, False, "", "True"):
@@ -298,8 +315,7 @@ def pipeline_diff(req):
                     e2[f] = v
                 envs.append(e2)
         for env in envs:
-            if budget.stop(fails):
-                break
+            budget.beat()
             stats["calls"] += 1
             exp_out = dsl_ref.evaluate(exp, env)
             builtins.print = spy
@@ -411,9 +427,7 @@ def mutants_diff(req):
             "\ufeff", "\u00ef\u00bb\u00bf", "\u00bb", "\u200b", "\u00a0@", "\x00", "\u2060", "\ufffe"]
     insertable = ["and", "or", "not", "(", ")", ",", "==", "1", '"s"', "x", "if", "else", "{", "}", "weighted", "return", "-", ":", "in"]
     for i in range(count):
-        if budget.stop(fails):
-            stats["stopped_early"] = "failures found and %d s used: %d of %d programs explored" % (budget.soft, i, count)
-            break
+        budget.beat()
         exp = dsl_ref.gen_experiment(rnd)
         try:
             text = dsl_ref.render(exp)
@@ -567,8 +581,7 @@ def tv_diff(req):
     for exp, text in progs:
         if fails:
             budget.failed()
-        if budget.stop(fails):
-            break
+        budget.beat()
         for expose in (False, True):
             n += 1
             try:
@@ -619,6 +632,42 @@ def parse_oracle(req):
                 r[side] = "%s: %s" % (type(e).__name__, e)
         r["same"] = r["real"] == r["expected"] and not r["real"].startswith(("SyntaxError", "ValueError"))
         out.append(r)
+    return out
+
+
+@register("depth_probe")
+def depth_probe(req):
+    """C14: `if` blocks nested n deep: indentation levels of the generator's text per layout, and whether the evaluator and the
+    two module texts build and answer alike"""
+    from pyab_experiment.experiment_evaluator import ExperimentEvaluator
+    from pyab_experiment.codegen.python.python_generator import PythonCodeGen
+    from pyab_experiment.utils.wraper_functions import generate_code, parse_source
+    out = []
+    for n in req["depths"]:
+        text = "def deep {\n" + "".join("if x > %d {\n" % i for i in range(n)) + 'return "a" weighted 1\n' + "}\n" * n + "}\n"
+        row = {"depth": n, "text": text if n <= 4 else "def deep { " + "if x > <i> { " * 2 + "... (%d nested if blocks) ... return \"a\" weighted 1 }...}" % n}
+        env = {"x": 10 ** 6}
+        try:
+            a = call_outcome(quiet(ExperimentEvaluator, text), env)
+            row["evaluator"] = a[1] if a[0] == "raise" else dec_value(a[1])
+        except BaseException as e:   # noqa
+            row["evaluator"] = "compile:%s" % type(e).__name__
+        for expose in (False, True):
+            k = "exposed" if expose else "nested"
+            try:
+                raw = quiet(lambda: PythonCodeGen(parse_source(text), expose_experiment_variant_function=expose).generate())
+                row["indent_levels_" + k] = max(len(l) - len(l.lstrip("\t")) for l in raw.splitlines() if l.strip())
+            except BaseException as e:   # noqa
+                row["indent_levels_" + k] = None
+            try:
+                ns = {}
+                exec(compile(quiet(generate_code, text, expose), "<generated>", "exec"), ns)   # noqa: S102
+                b = call_outcome(ns["deep"], env)
+                row["module_" + k] = b[1] if b[0] == "raise" else dec_value(b[1])
+            except BaseException as e:   # noqa
+                row["module_" + k] = "compile:%s" % type(e).__name__
+        row["same"] = row["evaluator"] == row["module_nested"] == row["module_exposed"]
+        out.append(row)
     return out
 
 
